@@ -100,12 +100,43 @@ def spell(rng, lang, y, m, d, this_year, allow_default=True):
     return f"{d} {mon}"
 
 
+def days_from_civil(y, m, d):
+    """proleptic Gregorian day number (any year, also <= 0 and > 9999: chrono's range is wider than Python's)"""
+    y -= m <= 2
+    era = (y if y >= 0 else y - 399) // 400
+    yoe = y - era * 400
+    doy = (153 * (m + (-3 if m > 2 else 9)) + 2) // 5 + d - 1
+    doe = yoe * 365 + yoe // 4 - yoe // 100 + doy
+    return era * 146097 + doe - 719468
+
+
+def civil_from_days(z):
+    z += 719468
+    era = (z if z >= 0 else z - 146096) // 146097
+    doe = z - era * 146097
+    yoe = (doe - doe // 1460 + doe // 36524 - doe // 146096) // 365
+    y = yoe + era * 400
+    doy = doe - (365 * yoe + yoe // 4 - yoe // 100)
+    mp = (5 * doy + 2) // 153
+    d = doy - (153 * mp + 2) // 5 + 1
+    m = mp + (3 if mp < 10 else -9)
+    return (y + (m <= 2), m, d)
+
+
+def valid_any(y, m, d):
+    if not (1 <= m <= 12) or d < 1:
+        return False
+    leap = y % 4 == 0 and (y % 100 != 0 or y % 400 == 0)
+    return d <= [31, 29 if leap else 28, 31, 30, 31, 30, 31, 31, 30, 31, 30, 31][m - 1]
+
+
 def impl_sim(y, m, d, secs, add):
-    """the code as it is (SC.Eval.dateCalc): years of 365 days, months of 30 days, no year borrow"""
+    """the code as it is (SC.Eval.dateCalc): years of 365 days, months of 30 days, no year borrow; chrono's year range
+    is wider than 1..9999, so the prediction is computed with a calendar of its own"""
     ny = abs(secs) // YEAR
     if ny:
         y = y + ny if add else y - ny
-        if not (1 <= y <= 9999) or not valid(y, m, d):
+        if not valid_any(y, m, d):
             return None
         secs -= YEAR * ny
     nm = abs(secs) // MONTH
@@ -118,15 +149,11 @@ def impl_sim(y, m, d, secs, add):
             m = m - nm % 12
             if m <= 0:
                 m += 12
-        if not (1 <= y <= 9999) or not valid(y, m, d):
+        if not valid_any(y, m, d):
             return None
         secs -= MONTH * nm
     days = secs // DAY
-    try:
-        r = datetime.date(y, m, d) + datetime.timedelta(days=days if add else -days)
-    except (OverflowError, ValueError):
-        return None
-    return (r.year, r.month, r.day)
+    return civil_from_days(days_from_civil(y, m, d) + (days if add else -days))
 
 
 def unit_secs(n, u):
